@@ -22,10 +22,18 @@ impl IgnorePathSet {
     pub(crate) fn is_match(&self, file_name: &FileName) -> bool {
         match file_name {
             FileName::Stdin => false,
-            FileName::Real(p) => self
-                .ignore_set
-                .matched_path_or_any_parents(p, false)
-                .is_ignore(),
+            FileName::Real(p) => {
+                // The patterns are relative to the directory of the configuration file, so a
+                // file outside of it is matched by none of them (and the matcher panics when
+                // it is asked about a path that is not under its root).
+                let root = self.ignore_set.path();
+                if p.has_root() && !root.as_os_str().is_empty() && !p.starts_with(root) {
+                    return false;
+                }
+                self.ignore_set
+                    .matched_path_or_any_parents(p, false)
+                    .is_ignore()
+            }
         }
     }
 }
